@@ -1,6 +1,47 @@
-(* Proofs/GSLineX.v -- the line smoother along x (Gen/CoreGS.v gauss_seidel_x,
+(* Proofs/GSLineX.v -- the line smoother along x (Gen/CoreGS.v [gauss_seidel_x],
    regenerated from emg3d/core.py) relaxes the SAME linear system as the
-   operator of C02.  WORK IN PROGRESS header, replaced at the end. *)
+   operator of C02 (Model/FIT.v): the banded system it hands to [solve] for one
+   (iy, iz) line is exactly "the residual equations A e[x] = s of the line's
+   5 nx - 4 edges, with those edge values as unknowns".
+
+   Unknown 5a+r of a line  <->  edge:  r=0: ex[a,iy,iz]   (0 <= a < nx)
+     r=1: ey[a+1,iy-1,iz]  r=2: ey[a+1,iy,iz]  r=3: ez[a+1,iy,iz-1]  r=4: ez[a+1,iy,iz]
+     (r = 1..4 only for a < nx-1);  e[x] = (lx x, ly x, lz x).
+
+   PROVED (all closed under the global context; abstract field as in GSBlock.v;
+   hypotheses: hx,hy,hz <> 0, 1+1 <> 0, 2 <= nx, 1 <= iy, 1 <= iz, and PECx = the
+   eight tangential values ey/ez[0 | nx, iy-1|iy, iz-1|iz] at the two x-ends of the
+   line are zero -- the kernel drops them from the system, "assumed to be zero"):
+   * blocks_to_amat_first / _normal / _last : the three branches of
+     [blocks_to_amat] as explicit update chains (which entries receive what).
+   * gsx_system_layout : after the ixh loop (induction, Zfold_ind) the band
+     storage holds middle(a) on the diagonal blocks, left(a) below them, zero in
+     the unused corner, rhs(a) in bvec -- [Lay]; middle/left/rhs are the blocks
+     of the generated straight-line code [gauss_seidel_x_L4_call1] (canonical
+     form cM/cL/cR; the never-set entries of middle/left stay zero, [ZeroML]).
+     gsx_sys_is_call1 : [gsx_sys] IS [gauss_seidel_x_L3_call1] (forward and
+     backward ordering).
+   * gsx_row_consistent (KEY; rows gsx_row0..4, each in its position cases
+     first / middle / next-to-last / last, 22 [field] identities) : for ANY (A,b)
+     laid out from the blocks and ANY x: row 5a+r of  A x - b  =  (A_fit e[x] - s)
+     on the r-th edge of step a.  NB a row couples to the previous step through
+     left(a) and to the NEXT step through left(a+1) transposed (symmetric band
+     storage), so the statement is about the laid-out blocks, not about
+     (middle, left) of a single step in isolation.
+   * gsx_line_consistent : the same for the system of the generated call site,
+     every 0 <= i < 5 nx - 4.
+   * gsx_L3_step : one (iyh) step of the kernel = assemble, solve, write back;
+     gsx_wb_spec : the write-back loop returns exactly e[solution] (pointwise).
+   * gsx_line_exact / gsx_line_exact_out (pivots <> 0 as in BandLDL),
+     gsx_line_fixed_point, gsx_line_frame.
+   * gsx_matrix_indep : the matrix does not depend on the field.
+   * sweepsx_inv (generic invariant lifting through iyh, izh, nu loops),
+     gauss_seidel_x_fixed_point, gauss_seidel_x_frame : whole kernel, every nu,
+     every shape (fixed point: 2 <= nx).
+   * gsx_hyps_example : the hypotheses (pivots, PEC, exactness) hold on a concrete
+     non-trivial 3x2x2 rational instance (vm_compute).
+   MISSING: affinity in the field and "last line exact" at whole-sweep level
+   (the line-level statements are here); the y and z line smoothers. *)
 From Coq Require Import ZArith Lia Bool Field List.
 From V Require Import Base.Loops Base.Arr Base.FieldSig Base.Tactics.
 From V Require Import Gen.CoreBand Gen.CoreGS Model.FIT Proofs.BandSums Proofs.BandLDL.
@@ -287,7 +328,7 @@ Section GSLineX.
     unfold Inv.
     destruct (Z.eq_dec a0 0) as [E0|N0].
     - subst a0. rewrite blocks_to_amat_first. cbn [fst snd]. split; [exact HZ'|].
-      apply lay_first; solve [assumption|lia|reflexivity].
+      apply (lay_first A b M' L' R' 0); solve [assumption|lia|reflexivity].
     - destruct (Z.eq_dec a0 (nx - 1)) as [E1|N1].
       + rewrite blocks_to_amat_last by lia. cbn [fst snd]. split; [exact HZ'|].
         apply lay_last; solve [assumption|lia].
@@ -337,4 +378,913 @@ Section GSLineX.
     rewrite (Zfold_ext 1 (nx + 1) _ (fun ixh st => gsx_L4 (ixh - 1) st)); [reflexivity|].
     intros i s _. apply L4_as_blk.
   Qed.
+  (* ---- the banded product written out: eleven guarded terms --------------- *)
+  Definition gd (n j : Z) (v : F) : F := if (0 <=? j) && (j <? n) then v else 0%F.
+  Lemma gd_true n j v : 0 <= j < n -> gd n j v = v.
+  Proof. intros H. unfold gd. zb_true (0 <=? j). zb_true (j <? n). reflexivity. Qed.
+  Lemma gd_false n j v : (j < 0 \/ n <= j) -> gd n j v = 0%F.
+  Proof.
+    intros H. unfold gd. destruct (Z.leb_spec 0 j), (Z.ltb_spec j n); cbn [andb]; try reflexivity; lia.
+  Qed.
+
+  Lemma sumZ_11 lo (f : Z -> F) : sumZ lo (lo + 11) f = (f lo + f (lo+1)%Z + f (lo+2)%Z + f (lo+3)%Z + f (lo+4)%Z + f (lo+5)%Z + f (lo+6)%Z + f (lo+7)%Z + f (lo+8)%Z + f (lo+9)%Z + f (lo+10)%Z)%F.
+  Proof.
+    unfold sumZ, Zfold. replace (Z.to_nat (lo + 11 - lo)) with 11%nat by lia. cbn [nfold].
+    replace (lo+1+1+1+1+1+1+1+1+1+1) with (lo+10) by lia.
+    replace (lo+1+1+1+1+1+1+1+1+1) with (lo+9) by lia.
+    replace (lo+1+1+1+1+1+1+1+1) with (lo+8) by lia.
+    replace (lo+1+1+1+1+1+1+1) with (lo+7) by lia.
+    replace (lo+1+1+1+1+1+1) with (lo+6) by lia.
+    replace (lo+1+1+1+1+1) with (lo+5) by lia.
+    replace (lo+1+1+1+1) with (lo+4) by lia.
+    replace (lo+1+1+1) with (lo+3) by lia.
+    replace (lo+1+1) with (lo+2) by lia.
+    ring.
+  Qed.
+
+  Lemma term_lo n A x i d : 0 <= d <= 5 ->
+    (if inrange (Z.max 0 (i-5)) (Z.min n (i+6)) (i-d) then (Asym A i (i-d) * x (i-d)%Z)%F else 0%F)
+    = gd n (i-d) (A (i + 5*(i-d))%Z * x (i-d)%Z)%F.
+  Proof.
+    intros Hd. unfold gd, Asym, inrange. zb_true (i - d <=? i).
+    destruct (Z.leb_spec 0 (i-d)), (Z.ltb_spec (i-d) n), (Z.leb_spec (Z.max 0 (i-5)) (i-d)),
+      (Z.ltb_spec (i-d) (Z.min n (i+6))); cbn [andb]; try reflexivity; lia.
+  Qed.
+  Lemma term_mid n A x i :
+    (if inrange (Z.max 0 (i-5)) (Z.min n (i+6)) i then (Asym A i i * x i)%F else 0%F)
+    = gd n i (A (i + 5*i)%Z * x i)%F.
+  Proof.
+    unfold gd, Asym, inrange. zb_true (i <=? i).
+    destruct (Z.leb_spec 0 i), (Z.ltb_spec i n), (Z.leb_spec (Z.max 0 (i-5)) i),
+      (Z.ltb_spec i (Z.min n (i+6))); cbn [andb]; try reflexivity; lia.
+  Qed.
+  Lemma term_hi n A x i d : 1 <= d <= 5 ->
+    (if inrange (Z.max 0 (i-5)) (Z.min n (i+6)) (i+d) then (Asym A i (i+d) * x (i+d)%Z)%F else 0%F)
+    = gd n (i+d) (A (i+d + 5*i)%Z * x (i+d)%Z)%F.
+  Proof.
+    intros Hd. unfold gd, Asym, inrange. zb_false (i + d <=? i).
+    destruct (Z.leb_spec 0 (i+d)), (Z.ltb_spec (i+d) n), (Z.leb_spec (Z.max 0 (i-5)) (i+d)),
+      (Z.ltb_spec (i+d) (Z.min n (i+6))); cbn [andb]; try reflexivity; lia.
+  Qed.
+
+  Lemma bandmul_unroll n A x i :
+    bandmul n A x i =
+    (gd n (i-5)%Z (A (i + 5*(i-5))%Z * x (i-5)%Z) + gd n (i-4)%Z (A (i + 5*(i-4))%Z * x (i-4)%Z) + gd n (i-3)%Z (A (i + 5*(i-3))%Z * x (i-3)%Z) + gd n (i-2)%Z (A (i + 5*(i-2))%Z * x (i-2)%Z) + gd n (i-1)%Z (A (i + 5*(i-1))%Z * x (i-1)%Z) + gd n i (A (i + 5*i)%Z * x i) + gd n (i+1)%Z (A (i+1 + 5*i)%Z * x (i+1)%Z) + gd n (i+2)%Z (A (i+2 + 5*i)%Z * x (i+2)%Z) + gd n (i+3)%Z (A (i+3 + 5*i)%Z * x (i+3)%Z) + gd n (i+4)%Z (A (i+4 + 5*i)%Z * x (i+4)%Z) + gd n (i+5)%Z (A (i+5 + 5*i)%Z * x (i+5)%Z))%F.
+  Proof.
+    unfold bandmul.
+    rewrite <- (sumZ_indicator Fth (i-5) (i-5+11) (Z.max 0 (i-5)) (Z.min n (i+6))) by lia.
+    rewrite sumZ_11.
+    replace (i-5+1) with (i-4) by lia. replace (i-5+2) with (i-3) by lia.
+    replace (i-5+3) with (i-2) by lia. replace (i-5+4) with (i-1) by lia.
+    replace (i-5+5) with i by lia. replace (i-5+6) with (i+1) by lia.
+    replace (i-5+7) with (i+2) by lia. replace (i-5+8) with (i+3) by lia.
+    replace (i-5+9) with (i+4) by lia. replace (i-5+10) with (i+5) by lia.
+    rewrite !term_lo, term_mid, !term_hi by lia. reflexivity.
+  Qed.
+  (* ---- the field with the line's unknowns replaced by a vector x ---------- *)
+  (* unknown 5*i       <-> ex[i,iy,iz]           (0 <= i < nx)
+     unknown 5*(i-1)+1 <-> ey[i,iy-1,iz]         (1 <= i < nx)
+     unknown 5*(i-1)+2 <-> ey[i,iy,iz]
+     unknown 5*(i-1)+3 <-> ez[i,iy,iz-1]
+     unknown 5*(i-1)+4 <-> ez[i,iy,iz] *)
+  Definition lx (x : Z -> F) : Z -> Z -> Z -> F := fun i j k =>
+    if (j =? iy) && (k =? iz) && (0 <=? i) && (i <? nx) then x (5*i) else ex i j k.
+  Definition ly (x : Z -> F) : Z -> Z -> Z -> F := fun i j k =>
+    if (k =? iz) && (1 <=? i) && (i <? nx) then
+      (if j =? iy - 1 then x (5*(i-1)+1) else if j =? iy then x (5*(i-1)+2) else ey i j k)
+    else ey i j k.
+  Definition lz (x : Z -> F) : Z -> Z -> Z -> F := fun i j k =>
+    if (j =? iy) && (1 <=? i) && (i <? nx) then
+      (if k =? iz - 1 then x (5*(i-1)+3) else if k =? iz then x (5*(i-1)+4) else ez i j k)
+    else ez i j k.
+
+  Lemma lx_in x i j k : j = iy -> k = iz -> 0 <= i < nx -> lx x i j k = x (5*i).
+  Proof.
+    intros -> -> H. unfold lx. rewrite !Z.eqb_refl.
+    zb_true (0 <=? i). zb_true (i <? nx). reflexivity.
+  Qed.
+  Lemma lx_out x i j k : (j <> iy \/ k <> iz) -> lx x i j k = ex i j k.
+  Proof.
+    intros H. unfold lx. destruct (Z.eqb_spec j iy), (Z.eqb_spec k iz); cbn [andb]; try reflexivity; lia.
+  Qed.
+  Lemma ly_in1 x i j k : j = iy - 1 -> k = iz -> 1 <= i < nx -> ly x i j k = x (5*(i-1)+1).
+  Proof.
+    intros -> -> H. unfold ly. rewrite !Z.eqb_refl.
+    zb_true (1 <=? i). zb_true (i <? nx). reflexivity.
+  Qed.
+  Lemma ly_in2 x i j k : j = iy -> k = iz -> 1 <= i < nx -> ly x i j k = x (5*(i-1)+2).
+  Proof.
+    intros -> -> H. unfold ly. rewrite !Z.eqb_refl.
+    zb_true (1 <=? i). zb_true (i <? nx). zb_false (iy =? iy - 1). reflexivity.
+  Qed.
+  Lemma ly_out x i j k : (k <> iz \/ (j <> iy - 1 /\ j <> iy) \/ i <= 0 \/ nx <= i) ->
+    ly x i j k = ey i j k.
+  Proof.
+    intros H. unfold ly.
+    destruct (Z.eqb_spec k iz), (Z.leb_spec 1 i), (Z.ltb_spec i nx), (Z.eqb_spec j (iy-1)),
+      (Z.eqb_spec j iy); cbn [andb]; try reflexivity; lia.
+  Qed.
+  Lemma lz_in1 x i j k : j = iy -> k = iz - 1 -> 1 <= i < nx -> lz x i j k = x (5*(i-1)+3).
+  Proof.
+    intros -> -> H. unfold lz. rewrite !Z.eqb_refl.
+    zb_true (1 <=? i). zb_true (i <? nx). reflexivity.
+  Qed.
+  Lemma lz_in2 x i j k : j = iy -> k = iz -> 1 <= i < nx -> lz x i j k = x (5*(i-1)+4).
+  Proof.
+    intros -> -> H. unfold lz. rewrite !Z.eqb_refl.
+    zb_true (1 <=? i). zb_true (i <? nx). zb_false (iz =? iz - 1). reflexivity.
+  Qed.
+  Lemma lz_out x i j k : (j <> iy \/ (k <> iz - 1 /\ k <> iz) \/ i <= 0 \/ nx <= i) ->
+    lz x i j k = ez i j k.
+  Proof.
+    intros H. unfold lz.
+    destruct (Z.eqb_spec j iy), (Z.leb_spec 1 i), (Z.ltb_spec i nx), (Z.eqb_spec k (iz-1)),
+      (Z.eqb_spec k iz); cbn [andb]; try reflexivity; lia.
+  Qed.
+
+  (* layout facts in the form used for rewriting *)
+  Section LayUse.
+    Variables (A b : Z -> F) (t : Z).
+    Hypothesis HLay : Lay t A b.
+    Lemma lay_M a r c p idx : p = (5*a+r) + 5*(5*a+c) -> idx = r + 5*c ->
+      0 <= a < t -> rowok a r -> 0 <= c <= r -> A p = cM a idx.
+    Proof. intros -> ->. apply (proj1 HLay). Qed.
+    Lemma lay_L a r c p idx : p = (5*a+r) + 5*(5*(a-1)+c) -> idx = r + 5*c ->
+      1 <= a < t -> rowok a r -> 1 <= c < 5 -> r <= c -> A p = cL a idx.
+    Proof. intros -> ->. apply (proj1 (proj2 HLay)). Qed.
+    Lemma lay_0 a p : p = 5*a + 5*(5*(a-1)) -> 1 <= a -> A p = 0%F.
+    Proof. intros ->. apply (proj1 (proj2 (proj2 HLay))). Qed.
+    Lemma lay_b a r p : p = 5*a + r -> 0 <= a < t -> rowok a r -> b p = cR a r.
+    Proof. intros ->. apply (proj2 (proj2 (proj2 HLay))). Qed.
+  End LayUse.
+  (* ---- row consistency ---------------------------------------------------- *)
+  Section Rows.
+    Variables (A b : Z -> F).
+    Hypothesis HLay : Lay nx A b.
+    Hypothesis Hnx : 2 <= nx.
+    Hypothesis Hiy : 1 <= iy.
+    Hypothesis Hiz : 1 <= iz.
+    (* PEC: the tangential boundary values at both x-ends of the line, which the
+       kernel drops from the system ("assumed to be zero") *)
+    Hypothesis pec_y0m : ey 0 (iy-1) iz = 0%F.
+    Hypothesis pec_y0  : ey 0 iy iz = 0%F.
+    Hypothesis pec_z0m : ez 0 iy (iz-1) = 0%F.
+    Hypothesis pec_z0  : ez 0 iy iz = 0%F.
+    Hypothesis pec_yNm : ey nx (iy-1) iz = 0%F.
+    Hypothesis pec_yN  : ey nx iy iz = 0%F.
+    Hypothesis pec_zNm : ez nx iy (iz-1) = 0%F.
+    Hypothesis pec_zN  : ez nx iy iz = 0%F.
+
+    Lemma pec_y i j : (i = 0 \/ i = nx) -> (j = iy - 1 \/ j = iy) -> ey i j iz = 0%F.
+    Proof. intros [->| ->] [->| ->]; assumption. Qed.
+    Lemma pec_z i k : (i = 0 \/ i = nx) -> (k = iz - 1 \/ k = iz) -> ez i iy k = 0%F.
+    Proof. intros [->| ->] [->| ->]; assumption. Qed.
+
+    Ltac sidec := first [lia | unfold rowok; lia].
+
+    Ltac lo_rw a r d p :=
+      let same := eval vm_compute in (d <=? r) in
+      lazymatch same with
+      | true =>
+          let c := eval vm_compute in (r - d) in
+          let idx := eval vm_compute in (r + 5*(r-d)) in
+          try rewrite (lay_M A b nx HLay a r c p idx) by sidec
+      | false =>
+          let c := eval vm_compute in (r - d + 5) in
+          let idx := eval vm_compute in (r + 5*(r-d+5)) in
+          lazymatch c with
+          | 0 => try rewrite (lay_0 A b nx HLay a p) by sidec
+          | _ => try rewrite (lay_L A b nx HLay a r c p idx) by sidec
+          end
+      end.
+
+    Ltac hi_rw a r d p :=
+      let same := eval vm_compute in (r + d <? 5) in
+      lazymatch same with
+      | true =>
+          let r' := eval vm_compute in (r + d) in
+          let idx := eval vm_compute in (r + d + 5*r) in
+          try rewrite (lay_M A b nx HLay a r' r p idx) by sidec
+      | false =>
+          let r' := eval vm_compute in (r + d - 5) in
+          let idx := eval vm_compute in (r + d - 5 + 5*r) in
+          lazymatch r with
+          | 0 => try rewrite (lay_0 A b nx HLay (a+1) p) by sidec
+          | _ => try rewrite (lay_L A b nx HLay (a+1) r' r p idx) by sidec
+          end
+      end.
+
+    Ltac gd_res :=
+      repeat match goal with
+      | |- context [gd ?n ?j ?v] =>
+          first [rewrite (gd_true n j v) by lia | rewrite (gd_false n j v) by lia]
+      end.
+
+    Ltac lay_rw a r :=
+      lo_rw a r 5 (5*a+r + 5*(5*a+r-5)); lo_rw a r 4 (5*a+r + 5*(5*a+r-4));
+      lo_rw a r 3 (5*a+r + 5*(5*a+r-3)); lo_rw a r 2 (5*a+r + 5*(5*a+r-2));
+      lo_rw a r 1 (5*a+r + 5*(5*a+r-1)); lo_rw a r 0 (5*a+r + 5*(5*a+r));
+      hi_rw a r 1 (5*a+r+1 + 5*(5*a+r)); hi_rw a r 2 (5*a+r+2 + 5*(5*a+r));
+      hi_rw a r 3 (5*a+r+3 + 5*(5*a+r)); hi_rw a r 4 (5*a+r+4 + 5*(5*a+r));
+      hi_rw a r 5 (5*a+r+5 + 5*(5*a+r));
+      rewrite (lay_b A b nx HLay a r (5*a+r)) by sidec.
+
+    Ltac reads :=
+      repeat first
+        [ rewrite lx_in by lia | rewrite lx_out by lia
+        | rewrite ly_in1 by lia | rewrite ly_in2 by lia | rewrite ly_out by lia
+        | rewrite lz_in1 by lia | rewrite lz_in2 by lia | rewrite lz_out by lia ].
+
+    Ltac pecs :=
+      repeat match goal with
+      | |- context [ey ?i ?j iz] => rewrite (pec_y i j) by lia
+      | |- context [ez ?i iy ?k] => rewrite (pec_z i k) by lia
+      end.
+
+    Ltac xnorm x :=
+      repeat match goal with
+      | |- context [x ?t] => progress ring_simplify t
+      end.
+
+    Ltac spec_eval x :=
+      unfold A_x, A_y, A_z, curlT_x, curlT_y, curlT_z, u_x, u_y, u_z, Mf_x, Mf_y, Mf_z,
+        Me_x, Me_y, Me_z, curl_x, curl_y, curl_z, pm;
+      repeat match goal with
+      | |- context [?a =? 0] => zb_false (a =? 0)
+      end;
+      cbn [orb]; zmax_norm; idx_norm; reads; pecs; xnorm x; flit.
+
+    Ltac side := first [ exact two_nz | apply (four_nz Fth two_nz) | apply (one_nz Fth)
+                       | apply hx_nz | apply hy_nz | apply hz_nz ].
+
+    Ltac row x a r :=
+      first [exfalso; lia | idtac];
+      rewrite (bandmul_unroll (5*nx-4) A x (5*a+r)); gd_res; lay_rw a r;
+      blk_eval; spec_eval x; field; repeat split; side.
+
+    Notation FX x := (lx x). Notation FY x := (ly x). Notation FZ x := (lz x).
+
+    Lemma gsx_row0 x a : 0 <= a < nx ->
+      Fsub (bandmul (5*nx-4) A x (5*a+0)) (b (5*a+0))
+      = Fsub (A_x (FX x) (FY x) (FZ x) eta_x zeta hx hy hz a iy iz) (sx a iy iz).
+    Proof.
+      intros Ha.
+      assert (C1 : a = 0 \/ 1 <= a) by lia.
+      assert (C2 : a = nx - 1 \/ a + 1 = nx - 1 \/ a + 1 < nx - 1) by lia.
+      destruct C1 as [C1|C1], C2 as [C2|[C2|C2]]; row x a 0.
+    Qed.
+    Lemma gsx_row1 x a : 0 <= a < nx - 1 ->
+      Fsub (bandmul (5*nx-4) A x (5*a+1)) (b (5*a+1))
+      = Fsub (A_y (FX x) (FY x) (FZ x) eta_y zeta hx hy hz (a+1) (iy-1) iz) (sy (a+1) (iy-1) iz).
+    Proof.
+      intros Ha.
+      assert (C1 : a = 0 \/ 1 <= a) by lia.
+      assert (C2 : a + 1 = nx - 1 \/ a + 1 < nx - 1) by lia.
+      destruct C1 as [C1|C1], C2 as [C2|C2]; row x a 1.
+    Qed.
+    Lemma gsx_row2 x a : 0 <= a < nx - 1 ->
+      Fsub (bandmul (5*nx-4) A x (5*a+2)) (b (5*a+2))
+      = Fsub (A_y (FX x) (FY x) (FZ x) eta_y zeta hx hy hz (a+1) iy iz) (sy (a+1) iy iz).
+    Proof.
+      intros Ha.
+      assert (C1 : a = 0 \/ 1 <= a) by lia.
+      assert (C2 : a + 1 = nx - 1 \/ a + 1 < nx - 1) by lia.
+      destruct C1 as [C1|C1], C2 as [C2|C2]; row x a 2.
+    Qed.
+    Lemma gsx_row3 x a : 0 <= a < nx - 1 ->
+      Fsub (bandmul (5*nx-4) A x (5*a+3)) (b (5*a+3))
+      = Fsub (A_z (FX x) (FY x) (FZ x) eta_z zeta hx hy hz (a+1) iy (iz-1)) (sz (a+1) iy (iz-1)).
+    Proof.
+      intros Ha.
+      assert (C1 : a = 0 \/ 1 <= a) by lia.
+      assert (C2 : a + 1 = nx - 1 \/ a + 1 < nx - 1) by lia.
+      destruct C1 as [C1|C1], C2 as [C2|C2]; row x a 3.
+    Qed.
+    Lemma gsx_row4 x a : 0 <= a < nx - 1 ->
+      Fsub (bandmul (5*nx-4) A x (5*a+4)) (b (5*a+4))
+      = Fsub (A_z (FX x) (FY x) (FZ x) eta_z zeta hx hy hz (a+1) iy iz) (sz (a+1) iy iz).
+    Proof.
+      intros Ha.
+      assert (C1 : a = 0 \/ 1 <= a) by lia.
+      assert (C2 : a + 1 = nx - 1 \/ a + 1 < nx - 1) by lia.
+      destruct C1 as [C1|C1], C2 as [C2|C2]; row x a 4.
+    Qed.
+    (* (A e[x] - s) on the edge of unknown 5*a + r *)
+    Definition line_res (x : Z -> F) (a r : Z) : F :=
+      let fx := lx x in let fy := ly x in let fz := lz x in
+      if r =? 0 then Fsub (A_x fx fy fz eta_x zeta hx hy hz a iy iz) (sx a iy iz)
+      else if r =? 1 then Fsub (A_y fx fy fz eta_y zeta hx hy hz (a+1) (iy-1) iz) (sy (a+1) (iy-1) iz)
+      else if r =? 2 then Fsub (A_y fx fy fz eta_y zeta hx hy hz (a+1) iy iz) (sy (a+1) iy iz)
+      else if r =? 3 then Fsub (A_z fx fy fz eta_z zeta hx hy hz (a+1) iy (iz-1)) (sz (a+1) iy (iz-1))
+      else Fsub (A_z fx fy fz eta_z zeta hx hy hz (a+1) iy iz) (sz (a+1) iy iz).
+
+    (* KEY LEMMA.  For ANY banded system (A, b) that holds the 5x5 blocks
+       middle / left / rhs of the steps in the layout [Lay] (middle on the
+       diagonal, left below it -- and hence, by symmetry of the band storage,
+       the transposed left of the NEXT step to the right), and ANY values x of
+       the line unknowns: row 5a+r of  A x - b  is  (A_fit e[x] - s)  on the
+       r-th edge of step a.  Positions: first (a = 0, no left block), middle,
+       last (a = nx-1, only r = 0). *)
+    Theorem gsx_row_consistent x a r : 0 <= a < nx -> 0 <= r < 5 -> (a = nx - 1 -> r = 0) ->
+      Fsub (bandmul (5*nx-4) A x (5*a+r)) (b (5*a+r)) = line_res x a r.
+    Proof.
+      intros Ha Hr Hl. unfold line_res. cbv zeta.
+      assert (a < nx - 1 \/ r = 0) by lia.
+      destruct (r_cases r Hr) as [E|[E|[E|[E|E]]]]; subst r; cbn [Z.eqb Pos.eqb].
+      - now apply gsx_row0.
+      - apply gsx_row1; lia.
+      - apply gsx_row2; lia.
+      - apply gsx_row3; lia.
+      - apply gsx_row4; lia.
+    Qed.
+
+    Theorem gsx_rows_consistent x i : 0 <= i < 5*nx-4 ->
+      Fsub (bandmul (5*nx-4) A x i) (b i) = line_res x (i / 5) (i mod 5).
+    Proof.
+      intros Hi. pose proof (Z.div_mod i 5 ltac:(lia)) as E.
+      pose proof (Z.mod_pos_bound i 5 ltac:(lia)) as Hm.
+      rewrite <- (gsx_row_consistent x (i/5) (i mod 5)); [|lia|lia|lia].
+      now rewrite <- E.
+    Qed.
+  End Rows.
+  (* ---- the system of one line is the residual system ---------------------- *)
+  Definition PECx : Prop :=
+    ey 0 (iy-1) iz = 0%F /\ ey 0 iy iz = 0%F /\ ez 0 iy (iz-1) = 0%F /\ ez 0 iy iz = 0%F /\
+    ey nx (iy-1) iz = 0%F /\ ey nx iy iz = 0%F /\ ez nx iy (iz-1) = 0%F /\ ez nx iy iz = 0%F.
+
+  Theorem gsx_line_consistent : 2 <= nx -> 1 <= iy -> 1 <= iz -> PECx ->
+    forall x i, 0 <= i < 5*nx-4 ->
+      Fsub (bandmul (5*nx-4) (fst gsx_sys) x i) (snd gsx_sys i) = line_res x (i / 5) (i mod 5).
+  Proof.
+    intros Hnx Hy Hz (P1 & P2 & P3 & P4 & P5 & P6 & P7 & P8) x i Hi.
+    exact (gsx_rows_consistent (fst gsx_sys) (snd gsx_sys) (gsx_system_layout Hnx) Hnx Hy Hz
+             P1 P2 P3 P4 P5 P6 P7 P8 x i Hi).
+  Qed.
+
+  (* ---- write-back ---------------------------------------------------------- *)
+  Definition Fld : Type := ((Z -> Z -> Z -> F) * (Z -> Z -> Z -> F) * (Z -> Z -> Z -> F))%type.
+  Definition wb_step (bv : Z -> F) (ix : Z) (st : Fld) : Fld :=
+    gauss_seidel_x_L5 sx sy sz eta_x eta_y eta_z zeta hx hy hz nu lhx nx lhy ny lhz nz
+      (kof hx) (kof hy) (kof hz) 0 (fill1 0%F) (fill1 0%F) 0 bv (fill1 0%F) 0 0 iz (iz-1) (iz+1)
+      0 iy (iy-1) (iy+1) ix st.
+  Definition gsx_wb (bv : Z -> F) : Fld := Zfold 1 (nx + 1) (fun ix st => wb_step bv ix st) (ex, ey, ez).
+
+  Lemma L5_as_wb iback m l nr bv am it izh iyh ix st :
+    gauss_seidel_x_L5 sx sy sz eta_x eta_y eta_z zeta hx hy hz nu lhx nx lhy ny lhz nz
+      (kof hx) (kof hy) (kof hz) iback m l nr bv am it izh iz (iz-1) (iz+1) iyh iy (iy-1) (iy+1) ix st
+    = wb_step bv ix st.
+  Proof. reflexivity. Qed.
+
+  Definition St7 : Type := ((Z -> F) * (Z -> F) * (Z -> F) * (Z -> F) *
+        (Z -> Z -> Z -> F) * (Z -> Z -> Z -> F) * (Z -> Z -> Z -> F))%type.
+  Definition flds (st : St7) : Fld := (snd (fst (fst st)), snd (fst st), snd st).
+
+  (* one (iy, iz) step of the kernel = assemble the line system, solve, write back *)
+  Lemma gsx_L3_step iback nr it izh iyh (st7 : St7) :
+    node iback ny iyh = iy -> flds st7 = (ex, ey, ez) ->
+    flds (gauss_seidel_x_L3 sx sy sz eta_x eta_y eta_z zeta hx hy hz nu lhx nx lhy ny lhz nz
+            (kof hx) (kof hy) (kof hz) iback nr it izh iz (iz-1) (iz+1) iyh st7)
+    = gsx_wb (snd (solve nr (fst gsx_sys) (snd gsx_sys))).
+  Proof.
+    intros Hn Hf. unfold flds in Hf.
+    assert (Hx : snd (fst (fst st7)) = ex) by congruence.
+    assert (Hy : snd (fst st7) = ey) by congruence.
+    assert (Hz : snd st7 = ez) by congruence.
+    cbv delta [gauss_seidel_x_L3 flds]. cbv beta. cbv zeta. cbn [fst snd].
+    change (if negb (iback =? 0) then ny - iyh else iyh) with (node iback ny iyh).
+    rewrite Hn, Hx, Hy, Hz.
+    rewrite (Zfold_ext 1 (nx + 1) _ (fun ixh st => gsx_L4 (ixh - 1) st))
+      by (intros i s _; apply L4_as_blk).
+    fold gsx_loop.
+    match goal with |- (fst (fst ?W), snd (fst ?W), snd ?W) = _ =>
+      transitivity W; [now destruct W as [[? ?] ?]|] end.
+    unfold gsx_wb, gsx_sys. cbn [fst snd]. reflexivity.
+  Qed.
+  (* the write-back loop produces exactly the field e[bv] *)
+  Definition lxT (hi : Z) (x : Z -> F) : Z -> Z -> Z -> F := fun i j k =>
+    if (j =? iy) && (k =? iz) && (0 <=? i) && (i <? hi) then x (5*i) else ex i j k.
+  Definition lyT (hi : Z) (x : Z -> F) : Z -> Z -> Z -> F := fun i j k =>
+    if (k =? iz) && (1 <=? i) && (i <? hi) then
+      (if j =? iy - 1 then x (5*(i-1)+1) else if j =? iy then x (5*(i-1)+2) else ey i j k)
+    else ey i j k.
+  Definition lzT (hi : Z) (x : Z -> F) : Z -> Z -> Z -> F := fun i j k =>
+    if (j =? iy) && (1 <=? i) && (i <? hi) then
+      (if k =? iz - 1 then x (5*(i-1)+3) else if k =? iz then x (5*(i-1)+4) else ez i j k)
+    else ez i j k.
+
+  Ltac bdestr :=
+    repeat match goal with
+    | |- context [Z.eqb ?a ?b] => destruct (Z.eqb_spec a b)
+    | |- context [Z.leb ?a ?b] => destruct (Z.leb_spec a b)
+    | |- context [Z.ltb ?a ?b] => destruct (Z.ltb_spec a b)
+    end.
+
+  Lemma wb_step_inv bv t (w : Fld) : 1 <= t <= nx ->
+    (forall i j k, fst (fst w) i j k = lxT (t-1) bv i j k /\
+                   snd (fst w) i j k = lyT (Z.min t nx) bv i j k /\
+                   snd w i j k = lzT (Z.min t nx) bv i j k) ->
+    (forall i j k, fst (fst (wb_step bv t w)) i j k = lxT (t+1-1) bv i j k /\
+                   snd (fst (wb_step bv t w)) i j k = lyT (Z.min (t+1) nx) bv i j k /\
+                   snd (wb_step bv t w) i j k = lzT (Z.min (t+1) nx) bv i j k).
+  Proof.
+    intros Ht H i j k. destruct (H i j k) as (Hx & Hy & Hz).
+    destruct w as [[fx fy] fz]. cbn [fst snd] in *.
+    cbv delta [wb_step gauss_seidel_x_L5]. cbv beta. cbv zeta. cbn [fst snd].
+    destruct (Z.ltb_spec (t - 1) (nx - 1)) as [Hlt|Hge]; cbn [fst snd].
+    - replace (Z.min (t+1) nx) with (t+1) by lia. replace (Z.min t nx) with t in * by lia.
+      repeat split.
+      + unfold upd3. rewrite Hx. unfold lxT.
+        bdestr; cbn [andb]; try reflexivity; try lia; f_equal; lia.
+      + unfold upd3. rewrite Hy. unfold lyT.
+        bdestr; cbn [andb]; try reflexivity; try lia; f_equal; lia.
+      + unfold upd3. rewrite Hz. unfold lzT.
+        bdestr; cbn [andb]; try reflexivity; try lia; f_equal; lia.
+    - assert (t = nx) by lia. subst t.
+      replace (Z.min (nx+1) nx) with nx by lia. replace (Z.min nx nx) with nx in * by lia.
+      repeat split; [|assumption|assumption].
+      unfold upd3. rewrite Hx. unfold lxT.
+      bdestr; cbn [andb]; try reflexivity; try lia; f_equal; lia.
+  Qed.
+
+  Theorem gsx_wb_spec bv : 1 <= nx ->
+    forall i j k, fst (fst (gsx_wb bv)) i j k = lx bv i j k /\
+                  snd (fst (gsx_wb bv)) i j k = ly bv i j k /\
+                  snd (gsx_wb bv) i j k = lz bv i j k.
+  Proof.
+    intros Hnx. unfold gsx_wb.
+    assert (G : forall i j k,
+      fst (fst (Zfold 1 (nx+1) (fun ix st => wb_step bv ix st) (ex, ey, ez))) i j k
+        = lxT (nx+1-1) bv i j k /\
+      snd (fst (Zfold 1 (nx+1) (fun ix st => wb_step bv ix st) (ex, ey, ez))) i j k
+        = lyT (Z.min (nx+1) nx) bv i j k /\
+      snd (Zfold 1 (nx+1) (fun ix st => wb_step bv ix st) (ex, ey, ez)) i j k
+        = lzT (Z.min (nx+1) nx) bv i j k).
+    { apply (Zfold_ind (fun t w => forall i j k,
+               fst (fst w) i j k = lxT (t-1) bv i j k /\
+               snd (fst w) i j k = lyT (Z.min t nx) bv i j k /\
+               snd w i j k = lzT (Z.min t nx) bv i j k)); [lia| |].
+      - intros i j k. cbn [fst snd]. unfold lxT, lyT, lzT.
+        replace (Z.min 1 nx) with 1 by lia.
+        repeat split; bdestr; cbn [andb]; try reflexivity; lia.
+      - intros t w Ht Hw. apply wb_step_inv; [lia|exact Hw]. }
+    replace (nx+1-1) with nx in G by lia. replace (Z.min (nx+1) nx) with nx in G by lia.
+    exact G.
+  Qed.
+  (* ---- corollaries with the banded solver --------------------------------- *)
+  Definition gsx_sol : Z -> F := snd (solve (5*nx-4) (fst gsx_sys) (snd gsx_sys)).
+  (* the field after the line step (pointwise e[gsx_sol], see gsx_wb_spec) *)
+  Definition gsx_out : Fld := gsx_wb gsx_sol.
+
+  Definition PivX : Prop := forall j, 0 <= j < 5*nx-4 -> pivot (5*nx-4) (fst gsx_sys) j <> 0%F.
+
+  (* after the line step all equations of the line hold *)
+  Theorem gsx_line_exact : 2 <= nx -> 1 <= iy -> 1 <= iz -> PECx -> PivX ->
+    forall i, 0 <= i < 5*nx-4 -> line_res gsx_sol (i / 5) (i mod 5) = 0%F.
+  Proof.
+    intros Hnx Hy Hz Hpec Hpiv i Hi.
+    rewrite <- (gsx_line_consistent Hnx Hy Hz Hpec gsx_sol i Hi).
+    apply (Fsub_zero Fth). unfold gsx_sol.
+    apply (solve_correct Fth (5*nx-4) (fst gsx_sys) (snd gsx_sys) ltac:(lia) Hpiv i Hi).
+  Qed.
+
+  (* the current values of the line's unknowns *)
+  Definition cur_line : Z -> F := fun i =>
+    let a := i / 5 in let r := i mod 5 in
+    if r =? 0 then ex a iy iz else if r =? 1 then ey (a+1) (iy-1) iz
+    else if r =? 2 then ey (a+1) iy iz else if r =? 3 then ez (a+1) iy (iz-1)
+    else ez (a+1) iy iz.
+
+  Lemma divmod5 a r : 0 <= r < 5 -> (5*a+r) / 5 = a /\ (5*a+r) mod 5 = r.
+  Proof.
+    intros Hr. split.
+    - symmetry. apply (Z.div_unique (5*a+r) 5 a r); lia.
+    - symmetry. apply (Z.mod_unique (5*a+r) 5 a r); lia.
+  Qed.
+
+  Lemma cur_at a r : 0 <= r < 5 ->
+    cur_line (5*a+r) = if r =? 0 then ex a iy iz else if r =? 1 then ey (a+1) (iy-1) iz
+    else if r =? 2 then ey (a+1) iy iz else if r =? 3 then ez (a+1) iy (iz-1)
+    else ez (a+1) iy iz.
+  Proof. intros Hr. unfold cur_line. cbv zeta. destruct (divmod5 a r Hr) as [-> ->]. reflexivity. Qed.
+
+  Lemma lx_cur i j k : lx cur_line i j k = ex i j k.
+  Proof.
+    unfold lx. bdestr; cbn [andb]; try reflexivity. subst.
+    replace (5*i) with (5*i+0) by lia. now rewrite cur_at by lia.
+  Qed.
+  Lemma ly_cur i j k : ly cur_line i j k = ey i j k.
+  Proof.
+    unfold ly. bdestr; cbn [andb]; try reflexivity; subst; rewrite cur_at by lia; cbn [Z.eqb Pos.eqb];
+      f_equal; lia.
+  Qed.
+  Lemma lz_cur i j k : lz cur_line i j k = ez i j k.
+  Proof.
+    unfold lz. bdestr; cbn [andb]; try reflexivity; subst; rewrite cur_at by lia; cbn [Z.eqb Pos.eqb];
+      f_equal; lia.
+  Qed.
+
+  (* extensionality of the residual in the three field arrays *)
+  Definition fld_res (fx fy fz : Z -> Z -> Z -> F) (a r : Z) : F :=
+    if r =? 0 then Fsub (A_x fx fy fz eta_x zeta hx hy hz a iy iz) (sx a iy iz)
+    else if r =? 1 then Fsub (A_y fx fy fz eta_y zeta hx hy hz (a+1) (iy-1) iz) (sy (a+1) (iy-1) iz)
+    else if r =? 2 then Fsub (A_y fx fy fz eta_y zeta hx hy hz (a+1) iy iz) (sy (a+1) iy iz)
+    else if r =? 3 then Fsub (A_z fx fy fz eta_z zeta hx hy hz (a+1) iy (iz-1)) (sz (a+1) iy (iz-1))
+    else Fsub (A_z fx fy fz eta_z zeta hx hy hz (a+1) iy iz) (sz (a+1) iy iz).
+
+  Lemma fld_res_ext (fx fy fz gx gy gz : Z -> Z -> Z -> F) a r :
+    (forall i j k, fx i j k = gx i j k) -> (forall i j k, fy i j k = gy i j k) ->
+    (forall i j k, fz i j k = gz i j k) -> fld_res fx fy fz a r = fld_res gx gy gz a r.
+  Proof.
+    intros Hx Hy Hz. unfold fld_res.
+    unfold A_x, A_y, A_z, curlT_x, curlT_y, curlT_z, u_x, u_y, u_z, curl_x, curl_y, curl_z.
+    rewrite ?Hx, ?Hy, ?Hz. reflexivity.
+  Qed.
+
+  Lemma line_res_fld x a r : line_res x a r = fld_res (lx x) (ly x) (lz x) a r.
+  Proof. reflexivity. Qed.
+
+  (* the same, stated on the field the step returns *)
+  Theorem gsx_line_exact_out : 2 <= nx -> 1 <= iy -> 1 <= iz -> PECx -> PivX ->
+    forall i, 0 <= i < 5*nx-4 ->
+      fld_res (fst (fst gsx_out)) (snd (fst gsx_out)) (snd gsx_out) (i / 5) (i mod 5) = 0%F.
+  Proof.
+    intros Hnx Hy Hz Hpec Hpiv i Hi.
+    rewrite (fld_res_ext _ _ _ (lx gsx_sol) (ly gsx_sol) (lz gsx_sol)).
+    - rewrite <- line_res_fld. now apply gsx_line_exact.
+    - intros a b c. apply (gsx_wb_spec gsx_sol ltac:(lia) a b c).
+    - intros a b c. apply (gsx_wb_spec gsx_sol ltac:(lia) a b c).
+    - intros a b c. apply (gsx_wb_spec gsx_sol ltac:(lia) a b c).
+  Qed.
+
+  (* a field whose line equations hold is left unchanged by the line step *)
+  Theorem gsx_line_fixed_point : 2 <= nx -> 1 <= iy -> 1 <= iz -> PECx -> PivX ->
+    (forall i, 0 <= i < 5*nx-4 -> fld_res ex ey ez (i / 5) (i mod 5) = 0%F) ->
+    (forall i, 0 <= i < 5*nx-4 -> gsx_sol i = cur_line i) /\
+    (forall i j k, fst (fst gsx_out) i j k = ex i j k /\ snd (fst gsx_out) i j k = ey i j k /\
+                   snd gsx_out i j k = ez i j k).
+  Proof.
+    intros Hnx Hy Hz Hpec Hpiv Hres.
+    assert (FP : forall i, 0 <= i < 5*nx-4 -> gsx_sol i = cur_line i).
+    { unfold gsx_sol.
+      apply (solve_unique Fth (5*nx-4) (fst gsx_sys) (snd gsx_sys) ltac:(lia) Hpiv cur_line).
+      intros i Hi. apply (Fsub_zero Fth).
+      rewrite (gsx_line_consistent Hnx Hy Hz Hpec cur_line i Hi), line_res_fld.
+      rewrite (fld_res_ext _ _ _ ex ey ez _ _ lx_cur ly_cur lz_cur). now apply Hres. }
+    split; [exact FP|].
+    intros i j k. unfold gsx_out.
+    destruct (gsx_wb_spec gsx_sol ltac:(lia) i j k) as (Ex & Ey & Ez).
+    rewrite Ex, Ey, Ez. rewrite <- (lx_cur i j k), <- (ly_cur i j k), <- (lz_cur i j k).
+    unfold lx, ly, lz.
+    repeat split; bdestr; cbn [andb]; try reflexivity; apply FP; lia.
+  Qed.
+
+  (* frame: the line step writes the line's interior edges and nothing else, for
+     ANY solution vector; in particular never a tangential boundary edge *)
+  Theorem gsx_line_frame bv : 1 <= nx -> forall i j k,
+    (fst (fst (gsx_wb bv)) i j k = ex i j k \/ (j = iy /\ k = iz /\ 0 <= i < nx)) /\
+    (snd (fst (gsx_wb bv)) i j k = ey i j k \/ (k = iz /\ 1 <= i < nx /\ (j = iy - 1 \/ j = iy))) /\
+    (snd (gsx_wb bv) i j k = ez i j k \/ (j = iy /\ 1 <= i < nx /\ (k = iz - 1 \/ k = iz))).
+  Proof.
+    intros Hnx i j k. destruct (gsx_wb_spec bv Hnx i j k) as (Ex & Ey & Ez).
+    rewrite Ex, Ey, Ez. unfold lx, ly, lz.
+    repeat split; bdestr; cbn [andb]; try (left; reflexivity); right; lia.
+  Qed.
 End GSLineX.
+
+(* ------------------------------------------------------------------ *)
+(* the matrix of the line system does not depend on the field          *)
+Lemma Zfold_rel {S1 S2} (R : S1 -> S2 -> Prop) lo hi (f : Z -> S1 -> S1) (g : Z -> S2 -> S2) s1 s2 :
+  lo <= hi -> R s1 s2 ->
+  (forall i a b, lo <= i < hi -> R a b -> R (f i a) (g i b)) ->
+  R (Zfold lo hi f s1) (Zfold lo hi g s2).
+Proof.
+  intros Hle H0 Hs.
+  apply (Zfold_ind (fun t s => R s (Zfold lo t g s2)) lo hi f s1 Hle).
+  - now rewrite Zfold_empty by lia.
+  - intros i s Hi Hr. rewrite Zfold_snoc by lia. now apply Hs.
+Qed.
+
+Section MatrixIndep.
+  Context {F : Type} {O : FOps F}.
+  Variables (fx fy fz gx gy gz sx sy sz eta_x eta_y eta_z zeta : Z -> Z -> Z -> F).
+  Variables (hx hy hz : Z -> F).
+  Variables (nu lhx nx lhy ny lhz nz iy iz : Z).
+
+  Definition R3 (s1 s2 : @St4 F) : Prop :=
+    fst (fst (fst s1)) = fst (fst (fst s2)) /\ snd (fst (fst s1)) = snd (fst (fst s2)) /\
+    snd (fst s1) = snd (fst s2).
+
+  Lemma gsx_L4_indep a s1 s2 : 2 <= nx -> 0 <= a < nx -> R3 s1 s2 ->
+    R3 (gsx_L4 fx fy fz sx sy sz eta_x eta_y eta_z zeta hx hy hz nu lhx nx lhy ny lhz nz iy iz a s1)
+       (gsx_L4 gx gy gz sx sy sz eta_x eta_y eta_z zeta hx hy hz nu lhx nx lhy ny lhz nz iy iz a s2).
+  Proof.
+    intros Hnx Ha (E1 & E2 & E3).
+    destruct s1 as [[[m1 l1] A1] b1], s2 as [[[m2 l2] A2] b2]. cbn [fst snd] in E1, E2, E3. subst m2 l2 A2.
+    rewrite !gsx_L4_step. cbv zeta.
+    destruct (gsx_blk_AB fx fy fz sx sy sz eta_x eta_y eta_z zeta hx hy hz nu lhx nx lhy ny lhz nz
+                iy iz a (m1, l1, A1, b1)) as [EA1 EB1].
+    destruct (gsx_blk_AB gx gy gz sx sy sz eta_x eta_y eta_z zeta hx hy hz nu lhx nx lhy ny lhz nz
+                iy iz a (m1, l1, A1, b2)) as [EA2 EB2].
+    rewrite EA1, EA2. cbn [fst snd] in *.
+    assert (EM : blkM (gsx_blk fx fy fz sx sy sz eta_x eta_y eta_z zeta hx hy hz nu lhx nx lhy ny lhz nz
+                         iy iz a (m1, l1, A1, b1))
+               = blkM (gsx_blk gx gy gz sx sy sz eta_x eta_y eta_z zeta hx hy hz nu lhx nx lhy ny lhz nz
+                         iy iz a (m1, l1, A1, b2))).
+    { cbv delta [gsx_blk gauss_seidel_x_L4_call1 blkM]. cbv beta. reflexivity. }
+    assert (EL : blkL (gsx_blk fx fy fz sx sy sz eta_x eta_y eta_z zeta hx hy hz nu lhx nx lhy ny lhz nz
+                         iy iz a (m1, l1, A1, b1))
+               = blkL (gsx_blk gx gy gz sx sy sz eta_x eta_y eta_z zeta hx hy hz nu lhx nx lhy ny lhz nz
+                         iy iz a (m1, l1, A1, b2))).
+    { cbv delta [gsx_blk gauss_seidel_x_L4_call1 blkL]. cbv beta. reflexivity. }
+    rewrite <- EM, <- EL.
+    set (M' := blkM _). set (L' := blkL _). clearbody M' L'.
+    replace (a + 1 - 1) with a by lia.
+    unfold R3. cbn [fst snd]. repeat split.
+    destruct (Z.eq_dec a 0) as [E0|N0].
+    - subst a. rewrite !blocks_to_amat_first. reflexivity.
+    - destruct (Z.eq_dec a (nx - 1)) as [E1|N1].
+      + rewrite !blocks_to_amat_last by lia. reflexivity.
+      + rewrite !blocks_to_amat_normal by lia. reflexivity.
+  Qed.
+
+  Lemma gsx_matrix_indep : 2 <= nx ->
+    fst (gsx_sys fx fy fz sx sy sz eta_x eta_y eta_z zeta hx hy hz nu lhx nx lhy ny lhz nz iy iz)
+    = fst (gsx_sys gx gy gz sx sy sz eta_x eta_y eta_z zeta hx hy hz nu lhx nx lhy ny lhz nz iy iz).
+  Proof.
+    intros Hnx. unfold gsx_sys, gsx_loop. cbn [fst].
+    assert (G : R3 (Zfold 1 (nx + 1) (fun ixh st =>
+                      gsx_L4 fx fy fz sx sy sz eta_x eta_y eta_z zeta hx hy hz nu lhx nx lhy ny lhz nz
+                        iy iz (ixh - 1) st) st0)
+                   (Zfold 1 (nx + 1) (fun ixh st =>
+                      gsx_L4 gx gy gz sx sy sz eta_x eta_y eta_z zeta hx hy hz nu lhx nx lhy ny lhz nz
+                        iy iz (ixh - 1) st) st0)).
+    { apply Zfold_rel; [lia|repeat split|].
+      intros i a b Hi Hr. apply gsx_L4_indep; [exact Hnx|lia|exact Hr]. }
+    exact (proj2 (proj2 G)).
+  Qed.
+End MatrixIndep.
+
+(* ------------------------------------------------------------------ *)
+(* lifting through the loops over iyh, izh and the nu sweeps            *)
+Section GSXSweep.
+  Context {F : Type} {O : FOps F}.
+  Variables (sx sy sz eta_x eta_y eta_z zeta : Z -> Z -> Z -> F).
+  Variables (hx hy hz : Z -> F).
+  Variables (nu nx ny nz : Z).
+
+  Notation L3 := (gauss_seidel_x_L3 sx sy sz eta_x eta_y eta_z zeta hx hy hz nu nx nx ny ny nz nz
+                    (kof hx) (kof hy) (kof hz)).
+  Notation L2 := (gauss_seidel_x_L2 sx sy sz eta_x eta_y eta_z zeta hx hy hz nu nx nx ny ny nz nz
+                    (kof hx) (kof hy) (kof hz)).
+  Notation L1 := (gauss_seidel_x_L1 sx sy sz eta_x eta_y eta_z zeta hx hy hz nu nx nx ny ny nz nz
+                    (kof hx) (kof hy) (kof hz)).
+
+  (* one line step on a field: assemble, solve, write back *)
+  Definition linestep (iy iz : Z) (f : @Fld F) : Fld :=
+    gsx_out (fst (fst f)) (snd (fst f)) (snd f) sx sy sz eta_x eta_y eta_z zeta hx hy hz
+      nu nx nx ny ny nz nz iy iz.
+
+  Lemma node_range iback n ih : (iback = 0 \/ iback = 1) -> 1 <= ih < n -> 1 <= node iback n ih < n.
+  Proof. intros [->| ->] H; unfold node; cbn [Z.eqb negb]; lia. Qed.
+
+  Definition St8 : Type := (Z * (Z -> F) * (Z -> F) * (Z -> F) * (Z -> F) *
+        (Z -> Z -> Z -> F) * (Z -> Z -> Z -> F) * (Z -> Z -> Z -> F))%type.
+  Definition flds8 (st : St8) : Fld := (snd (fst (fst st)), snd (fst st), snd st).
+  Definition iback8 (st : St8) : Z := fst (fst (fst (fst (fst (fst (fst st)))))).
+
+  Section Invariant.
+    Variable Inv : @Fld F -> Prop.
+    Hypothesis Inv_step : forall iy iz f, 1 <= iy < ny -> 1 <= iz < nz -> Inv f -> Inv (linestep iy iz f).
+
+    Lemma L3x_inv iback it izh iz iyh (st : St7) :
+      (iback = 0 \/ iback = 1) -> 1 <= iz < nz -> 1 <= iyh < ny -> Inv (flds st) ->
+      Inv (flds (L3 iback (5*nx-4) it izh iz (iz-1) (iz+1) iyh st)).
+    Proof.
+      intros Hb Hz Hy G.
+      rewrite (gsx_L3_step (snd (fst (fst st))) (snd (fst st)) (snd st) sx sy sz eta_x eta_y eta_z zeta
+                 hx hy hz nu nx nx ny ny nz nz (node iback ny iyh) iz iback (5*nx-4) it izh iyh st
+                 eq_refl eq_refl).
+      apply (Inv_step (node iback ny iyh) iz (flds st)); [apply node_range; assumption|assumption|exact G].
+    Qed.
+
+    Lemma L2x_inv iback it izh (st : St7) :
+      (iback = 0 \/ iback = 1) -> 1 <= izh < nz -> Inv (flds st) ->
+      Inv (flds (L2 iback (5*nx-4) it izh st)).
+    Proof.
+      intros Hb Hz G.
+      cbv delta [gauss_seidel_x_L2]. cbv beta. cbv zeta.
+      match goal with
+      | |- Inv (flds (_, _, _, _, snd (fst (fst ?t)), snd (fst ?t), snd ?t)) => change (Inv (flds t))
+      end.
+      pose proof (node_range iback nz izh Hb Hz) as Hzz.
+      destruct (Z_le_gt_dec 1 ny) as [Hn|Hn].
+      - apply (Zfold_ind (fun _ s => Inv (flds s))); [assumption|exact G|].
+        intros j s Hj Gs.
+        change (Inv (flds (L3 iback (5*nx-4) it izh (node iback nz izh) (node iback nz izh - 1)
+                             (node iback nz izh + 1) j s))).
+        apply L3x_inv; assumption.
+      - rewrite Zfold_empty by lia. exact G.
+    Qed.
+
+    Definition Inv8 (st : St8) : Prop := (iback8 st = 0 \/ iback8 st = 1) /\ Inv (flds8 st).
+
+    Lemma L1x_inv it (st : St8) : Inv8 st -> Inv8 (L1 (5*nx-4) it st).
+    Proof.
+      intros [Hb G]. unfold iback8 in Hb.
+      cbv delta [gauss_seidel_x_L1]. cbv beta. cbv zeta.
+      set (ib := 1 - fst (fst (fst (fst (fst (fst (fst st))))))).
+      assert (Hib : ib = 0 \/ ib = 1) by (unfold ib; lia).
+      split; [exact Hib|].
+      match goal with
+      | |- Inv (flds8 (_, _, _, _, _, snd (fst (fst ?t)), snd (fst ?t), snd ?t)) => change (Inv (flds t))
+      end.
+      destruct (Z_le_gt_dec 1 nz) as [Hn|Hn].
+      - apply (Zfold_ind (fun _ s => Inv (flds s))); [assumption|exact G|].
+        intros k s Hk Gs. apply L2x_inv; assumption.
+      - rewrite Zfold_empty by lia. exact G.
+    Qed.
+
+    Lemma sweepsx_inv (s0 : St8) : Inv8 s0 -> Inv8 (Zfold 0 nu (fun it st => L1 (5*nx-4) it st) s0).
+    Proof.
+      intros G. destruct (Z_le_gt_dec 0 nu) as [Hn|Hn].
+      - apply (Zfold_ind (fun _ s => Inv8 s)); [assumption|exact G|].
+        intros it s _ Gs. now apply L1x_inv.
+      - now rewrite Zfold_empty by lia.
+    Qed.
+  End Invariant.
+End GSXSweep.
+
+(* ------------------------------------------------------------------ *)
+(* the whole kernel, every number of sweeps nu, every shape             *)
+Section GSXWhole.
+  Context {F : Type} {O : FOps F}.
+  Hypothesis Fth : field_theory F0 F1 Fadd Fmul Fsub Fopp Fdiv Finv (@eq F).
+  Hypothesis two_nz : (1 + 1)%F <> 0%F.
+  Variables (ex ey ez sx sy sz eta_x eta_y eta_z zeta : Z -> Z -> Z -> F).
+  Variables (hx hy hz : Z -> F).
+  Hypothesis hx_nz : forall i, hx i <> 0%F.
+  Hypothesis hy_nz : forall i, hy i <> 0%F.
+  Hypothesis hz_nz : forall i, hz i <> 0%F.
+  Variables (nu nx ny nz : Z).
+
+  Definition Good (f : @Fld F) : Prop :=
+    (forall i j l, fst (fst f) i j l = ex i j l) /\
+    (forall i j l, snd (fst f) i j l = ey i j l) /\
+    (forall i j l, snd f i j l = ez i j l).
+
+  Section FixedPoint.
+    Hypothesis Hnx : 2 <= nx.
+    (* the field solves every equation of every interior line *)
+    Hypothesis exact : forall iy iz, 1 <= iy < ny -> 1 <= iz < nz -> forall i, 0 <= i < 5*nx-4 ->
+      fld_res sx sy sz eta_x eta_y eta_z zeta hx hy hz iy iz ex ey ez (i / 5) (i mod 5) = 0%F.
+    (* PEC at the two x-ends of every interior line *)
+    Hypothesis pec : forall iy iz, 1 <= iy < ny -> 1 <= iz < nz -> PECx ey ez nx iy iz.
+    Hypothesis pivots : forall iy iz, 1 <= iy < ny -> 1 <= iz < nz ->
+      PivX ex ey ez sx sy sz eta_x eta_y eta_z zeta hx hy hz nu nx nx ny ny nz nz iy iz.
+
+    Lemma Good_step iy iz f : 1 <= iy < ny -> 1 <= iz < nz -> Good f ->
+      Good (linestep sx sy sz eta_x eta_y eta_z zeta hx hy hz nu nx ny nz iy iz f).
+    Proof.
+      intros Hy Hz (Gx & Gy & Gz). destruct f as [[fx fy] fz]. cbn [fst snd] in Gx, Gy, Gz.
+      unfold linestep. cbn [fst snd].
+      assert (PECf : PECx fy fz nx iy iz).
+      { unfold PECx. rewrite !Gy, !Gz. exact (pec iy iz Hy Hz). }
+      assert (PIVf : PivX fx fy fz sx sy sz eta_x eta_y eta_z zeta hx hy hz nu nx nx ny ny nz nz iy iz).
+      { unfold PivX.
+        rewrite (gsx_matrix_indep fx fy fz ex ey ez sx sy sz eta_x eta_y eta_z zeta hx hy hz
+                   nu nx nx ny ny nz nz iy iz Hnx).
+        exact (pivots iy iz Hy Hz). }
+      assert (RESf : forall i, 0 <= i < 5*nx-4 ->
+                fld_res sx sy sz eta_x eta_y eta_z zeta hx hy hz iy iz fx fy fz (i / 5) (i mod 5) = 0%F).
+      { intros i Hi.
+        rewrite (fld_res_ext sx sy sz eta_x eta_y eta_z zeta hx hy hz iy iz fx fy fz ex ey ez _ _ Gx Gy Gz).
+        exact (exact iy iz Hy Hz i Hi). }
+      destruct (gsx_line_fixed_point Fth two_nz fx fy fz sx sy sz eta_x eta_y eta_z zeta hx hy hz
+                  hx_nz hy_nz hz_nz nu nx nx ny ny nz nz iy iz Hnx ltac:(lia) ltac:(lia) PECf PIVf RESf)
+        as [_ Hout].
+      unfold Good. repeat split; intros i j l; destruct (Hout i j l) as (Ex & Ey & Ez).
+      - rewrite Ex. apply Gx.
+      - rewrite Ey. apply Gy.
+      - rewrite Ez. apply Gz.
+    Qed.
+
+    (* a field that solves the system on every interior line (with PEC at the
+       x-ends) is returned unchanged, pointwise, for every nu *)
+    Theorem gauss_seidel_x_fixed_point :
+      let r := gauss_seidel_x nx ny nz ex ey ez sx sy sz eta_x eta_y eta_z zeta hx hy hz nu in
+      forall i j l, fst (fst r) i j l = ex i j l /\ snd (fst r) i j l = ey i j l /\ snd r i j l = ez i j l.
+    Proof.
+      cbv zeta. cbv delta [gauss_seidel_x]. cbv beta. cbv zeta. cbn [fst snd].
+      set (t := Zfold 0 nu _ _).
+      assert (G : Inv8 Good t).
+      { subst t.
+        apply (sweepsx_inv sx sy sz eta_x eta_y eta_z zeta hx hy hz nu nx ny nz Good).
+        - intros iy iz f Hy Hz Gf. now apply Good_step.
+        - split; [left; reflexivity|]. repeat split; reflexivity. }
+      destruct G as [_ (Gx & Gy & Gz)]. cbn [flds8 fst snd] in Gx, Gy, Gz.
+      intros i j l. repeat split; [apply Gx|apply Gy|apply Gz].
+    Qed.
+  End FixedPoint.
+
+  (* frame: only interior edges of interior lines are ever written *)
+  Definition FrameX (f : @Fld F) : Prop :=
+    (forall i j l, (i < 0 \/ nx <= i \/ j <= 0 \/ ny <= j \/ l <= 0 \/ nz <= l) ->
+       fst (fst f) i j l = ex i j l) /\
+    (forall i j l, (i <= 0 \/ nx <= i \/ j < 0 \/ ny <= j \/ l <= 0 \/ nz <= l) ->
+       snd (fst f) i j l = ey i j l) /\
+    (forall i j l, (i <= 0 \/ nx <= i \/ j <= 0 \/ ny <= j \/ l < 0 \/ nz <= l) ->
+       snd f i j l = ez i j l).
+
+  Lemma FrameX_step iy iz f : 1 <= iy < ny -> 1 <= iz < nz -> FrameX f ->
+    FrameX (linestep sx sy sz eta_x eta_y eta_z zeta hx hy hz nu nx ny nz iy iz f).
+  Proof.
+    intros Hy Hz (Gx & Gy & Gz). destruct f as [[fx fy] fz]. cbn [fst snd] in Gx, Gy, Gz.
+    unfold linestep, gsx_out. cbn [fst snd].
+    destruct (Z_le_gt_dec 1 nx) as [Hn|Hn].
+    - set (bv := gsx_sol _ _ _ _ _ _ _ _ _ _ _ _ _ _ _ _ _ _ _ _ _ _). clearbody bv.
+      pose proof (gsx_line_frame fx fy fz sx sy sz eta_x eta_y eta_z zeta hx hy hz nu nx nx ny ny nz nz
+                    iy iz bv Hn) as Hfr.
+      unfold FrameX. repeat split; intros i j l Hb; destruct (Hfr i j l) as (Ex & Ey & Ez).
+      + destruct Ex as [Ex|Ex]; [rewrite Ex; now apply Gx|lia].
+      + destruct Ey as [Ey|Ey]; [rewrite Ey; now apply Gy|lia].
+      + destruct Ez as [Ez|Ez]; [rewrite Ez; now apply Gz|lia].
+    - unfold gsx_wb. rewrite Zfold_empty by lia. cbn [fst snd]. repeat split; assumption.
+  Qed.
+
+  Theorem gauss_seidel_x_frame :
+    let r := gauss_seidel_x nx ny nz ex ey ez sx sy sz eta_x eta_y eta_z zeta hx hy hz nu in
+    (forall i j l, (i < 0 \/ nx <= i \/ j <= 0 \/ ny <= j \/ l <= 0 \/ nz <= l) ->
+       fst (fst r) i j l = ex i j l) /\
+    (forall i j l, (i <= 0 \/ nx <= i \/ j < 0 \/ ny <= j \/ l <= 0 \/ nz <= l) ->
+       snd (fst r) i j l = ey i j l) /\
+    (forall i j l, (i <= 0 \/ nx <= i \/ j <= 0 \/ ny <= j \/ l < 0 \/ nz <= l) ->
+       snd r i j l = ez i j l).
+  Proof.
+    cbv zeta. cbv delta [gauss_seidel_x]. cbv beta. cbv zeta. cbn [fst snd].
+    set (t := Zfold 0 nu _ _).
+    assert (G : Inv8 FrameX t).
+    { subst t.
+      apply (sweepsx_inv sx sy sz eta_x eta_y eta_z zeta hx hy hz nu nx ny nz FrameX).
+      - intros iy iz f Hy Hz Gf. now apply FrameX_step.
+      - split; [left; reflexivity|]. repeat split; intros; reflexivity. }
+    destruct G as [_ G]. exact G.
+  Qed.
+End GSXWhole.
+
+(* ------------------------------------------------------------------ *)
+(* Non-vacuity: on a concrete 3 x 2 x 2 grid over Q (stretched cells, varying
+   zeta and eta, a field with non-zero interior values that is zero on the
+   tangential x-boundaries, source s := A e) the hypotheses of the line
+   theorems -- pivots, PEC, exactness -- hold for the line (iy,iz) = (1,1);
+   n = 5*3-4 = 11 unknowns. *)
+From Coq Require Import QArith.
+From V Require Import Base.ExecQ.
+Local Open Scope Z_scope.
+Definition xh (i : Z) : Q := qz (2 + Z.abs i) 2.
+Definition xzeta (i j k : Z) : Q := qz (1 + Z.abs i + 2 * Z.abs j + 3 * Z.abs k) 3.
+Definition xeta (i j k : Z) : Q := qz (- (2 + Z.abs i + Z.abs j * Z.abs k)) 5.
+Definition xex (i j k : Z) : Q := qz (1 + i - 2 * j + 3 * k) 2.
+Definition xey (i j k : Z) : Q := if (i =? 0) || (i =? 3) then 0%F else qz (2 - i + j + k) 3.
+Definition xez (i j k : Z) : Q := if (i =? 0) || (i =? 3) then 0%F else qz (1 + 2 * i - j + k) 4.
+Definition xsx : Z -> Z -> Z -> Q := A_x xex xey xez xeta xzeta xh xh xh.
+Definition xsy : Z -> Z -> Z -> Q := A_y xex xey xez xeta xzeta xh xh xh.
+Definition xsz : Z -> Z -> Z -> Q := A_z xex xey xez xeta xzeta xh xh xh.
+
+Example gsx_hyps_example :
+  PivX xex xey xez xsx xsy xsz xeta xeta xeta xzeta xh xh xh 1 3 3 2 2 2 2 1 1 /\
+  PECx xey xez 3 1 1 /\
+  (forall i, 0 <= i < 11 ->
+     fld_res xsx xsy xsz xeta xeta xeta xzeta xh xh xh 1 1 xex xey xez (i / 5) (i mod 5) = 0%F) /\
+  xex 1 1 1 <> 0%F /\ xey 1 1 1 <> 0%F /\ xez 2 1 1 <> 0%F.
+Proof.
+  split; [|split; [|split; [|repeat split]]].
+  - unfold PivX. change (5 * 3 - 4) with 11.
+    by_nz qzero 11 (ldl 11 (fst (gsx_sys xex xey xez xsx xsy xsz xeta xeta xeta xzeta xh xh xh
+                                   1 3 3 2 2 2 2 1 1))).
+  - unfold PECx. repeat split; vm_compute; reflexivity.
+  - by_dump 11 (fun i => fld_res xsx xsy xsz xeta xeta xeta xzeta xh xh xh 1 1 xex xey xez
+                           (i / 5) (i mod 5)) (fun _ : Z => 0%F).
+  - vm_compute; discriminate.
+  - vm_compute; discriminate.
+  - vm_compute; discriminate.
+Qed.
+
+Print Assumptions blocks_to_amat_first.
+Print Assumptions blocks_to_amat_normal.
+Print Assumptions blocks_to_amat_last.
+Print Assumptions gsx_system_layout.
+Print Assumptions gsx_sys_is_call1.
+Print Assumptions gsx_row_consistent.
+Print Assumptions gsx_rows_consistent.
+Print Assumptions gsx_line_consistent.
+Print Assumptions gsx_L3_step.
+Print Assumptions gsx_wb_spec.
+Print Assumptions gsx_line_exact.
+Print Assumptions gsx_line_exact_out.
+Print Assumptions gsx_line_fixed_point.
+Print Assumptions gsx_line_frame.
+Print Assumptions gsx_matrix_indep.
+Print Assumptions sweepsx_inv.
+Print Assumptions gauss_seidel_x_fixed_point.
+Print Assumptions gauss_seidel_x_frame.
+Print Assumptions gsx_hyps_example.
